@@ -1,3 +1,4 @@
 import ZxVerif.Props.C17
 import ZxVerif.Props.C01
 import ZxVerif.Props.C02
+import ZxVerif.Props.C03
